@@ -45,7 +45,7 @@ package table
 //@ func (*table.Footer).Encode -> r, err
 //@ props C11 C12
 //@ assigns BufC, BufStore, BufOwned
-//@ ensures forall(Int(x), old(BufOwned)[x] ==> (BufOwned[x] && BufC[x] == old(BufC)[x] && BufStore[x] == old(BufStore)[x]), trig(BufOwned[x]))
+//@ ensures forall(Int(x), old(BufOwned)[x] ==> (BufOwned[x] && BufC[x] == old(BufC)[x] && BufStore[x] == old(BufStore)[x]), trig(BufOwned[x]), trig(old(BufOwned)[x]))
 //@ ensures forall(Int(x), BufOwned[x] ==> old(BufOwned)[x], trig(BufOwned[x]))
 //@ ensures err == nil && r != nil && arrid(r) >= old(alloc)
 //@ ensures string(r) == footerEnc(f.MetaBlock.Offset, f.MetaBlock.Length, f.IndexBlock.Offset, f.IndexBlock.Length, f.Magic)
@@ -53,7 +53,7 @@ package table
 //@ func (*table.Meta).Encode -> r, err
 //@ props C11 C12
 //@ assigns BufC, BufStore, BufOwned
-//@ ensures forall(Int(x), old(BufOwned)[x] ==> (BufOwned[x] && BufC[x] == old(BufC)[x] && BufStore[x] == old(BufStore)[x]), trig(BufOwned[x]))
+//@ ensures forall(Int(x), old(BufOwned)[x] ==> (BufOwned[x] && BufC[x] == old(BufC)[x] && BufStore[x] == old(BufStore)[x]), trig(BufOwned[x]), trig(old(BufOwned)[x]))
 //@ ensures forall(Int(x), BufOwned[x] ==> old(BufOwned)[x], trig(BufOwned[x]))
 //@ ensures err == nil && r != nil && arrid(r) >= old(alloc)
 //@ ensures string(r) == le64(u64of(m.CreatedUnix)) + le64(m.Level)
@@ -80,23 +80,23 @@ package table
 //@ props C11 C12
 //@ checked_conversions
 //@ assigns BufC, BufStore, BufOwned
-//@ ensures forall(Int(x), old(BufOwned)[x] ==> (BufOwned[x] && BufC[x] == old(BufC)[x] && BufStore[x] == old(BufStore)[x]), trig(BufOwned[x]))
+//@ ensures forall(Int(x), old(BufOwned)[x] ==> (BufOwned[x] && BufC[x] == old(BufC)[x] && BufStore[x] == old(BufStore)[x]), trig(BufOwned[x]), trig(old(BufOwned)[x]))
 //@ ensures forall(Int(x), BufOwned[x] ==> old(BufOwned)[x], trig(BufOwned[x]))
 //@ ensures err == nil && (r != nil ==> arrid(r) >= old(alloc))
 //
 //@ loop 0:
-//@   invariant w != nil && w.err == nil && w.buf == buf && buf != nil && BufOwned[ref(buf)] && forall(Int(x), (old(BufOwned)[x] ==> (BufOwned[x] && BufC[x] == old(BufC)[x] && BufStore[x] == old(BufStore)[x])) && (BufOwned[x] ==> (old(BufOwned)[x] || x == ref(buf))), trig(BufOwned[x]))
+//@   invariant w != nil && w.err == nil && w.buf == buf && buf != nil && BufOwned[ref(buf)] && forall(Int(x), (old(BufOwned)[x] ==> (BufOwned[x] && BufC[x] == old(BufC)[x] && BufStore[x] == old(BufStore)[x])) && (BufOwned[x] ==> (old(BufOwned)[x] || x == ref(buf))), trig(BufOwned[x]), trig(old(BufOwned)[x]))
 //
 //@ func (*table.Index).Encode -> r, err
 //@ props C11 C12
 //@ checked_conversions
 //@ assigns BufC, BufStore, BufOwned
-//@ ensures forall(Int(x), old(BufOwned)[x] ==> (BufOwned[x] && BufC[x] == old(BufC)[x] && BufStore[x] == old(BufStore)[x]), trig(BufOwned[x]))
+//@ ensures forall(Int(x), old(BufOwned)[x] ==> (BufOwned[x] && BufC[x] == old(BufC)[x] && BufStore[x] == old(BufStore)[x]), trig(BufOwned[x]), trig(old(BufOwned)[x]))
 //@ ensures forall(Int(x), BufOwned[x] ==> old(BufOwned)[x], trig(BufOwned[x]))
 //@ ensures err == nil && (r != nil ==> arrid(r) >= old(alloc))
 //
 //@ loop 0:
-//@   invariant w != nil && w.err == nil && w.buf == buf && buf != nil && BufOwned[ref(buf)] && forall(Int(x), (old(BufOwned)[x] ==> (BufOwned[x] && BufC[x] == old(BufC)[x] && BufStore[x] == old(BufStore)[x])) && (BufOwned[x] ==> (old(BufOwned)[x] || x == ref(buf))), trig(BufOwned[x]))
+//@   invariant w != nil && w.err == nil && w.buf == buf && buf != nil && BufOwned[ref(buf)] && forall(Int(x), (old(BufOwned)[x] ==> (BufOwned[x] && BufC[x] == old(BufC)[x] && BufStore[x] == old(BufStore)[x])) && (BufOwned[x] ==> (old(BufOwned)[x] || x == ref(buf))), trig(BufOwned[x]), trig(old(BufOwned)[x]))
 //
 //@ func table.Build -> ix, r
 //@ props C11 C12
@@ -104,15 +104,18 @@ package table
 //@ assigns BufC, BufStore, BufOwned
 //@ ensures r != nil ==> arrid(r) >= old(alloc)
 //@ ensures len(ix.Entries) >= 0 && (len(entries) > 0 ==> len(ix.Entries) >= 1)
-//@ ensures forall(Int(x), old(BufOwned)[x] ==> (BufOwned[x] && BufC[x] == old(BufC)[x] && BufStore[x] == old(BufStore)[x]), trig(BufOwned[x]))
+//@ ensures forall(Int(x), old(BufOwned)[x] ==> (BufOwned[x] && BufC[x] == old(BufC)[x] && BufStore[x] == old(BufStore)[x]), trig(BufOwned[x]), trig(old(BufOwned)[x]))
 //@ loop 0:
 //@   invariant buf != nil && BufOwned[ref(buf)] && !old(BufOwned)[ref(buf)]
 //@   invariant (arrid(dataBlocks) >= old(alloc) || cap(dataBlocks) == 0) && (arrid(data.Entries) >= old(alloc) || cap(data.Entries) == 0)
 //@   invariant all(b, 0, len(dataBlocks), len(dataBlocks[b].Entries) > 0)
 //@   invariant rangeindex >= 0 ==> len(data.Entries) > 0
 //@   invariant currSize >= 0 && (currSize > 0 ==> len(data.Entries) > 0)
+//@ define poolKept() = forall(Int(x), old(BufOwned)[x] ==> (BufOwned[x] && BufC[x] == old(BufC)[x] && BufStore[x] == old(BufStore)[x]), trig(BufOwned[x]), trig(old(BufOwned)[x]))
+//@ after_call (*table.Data).Encode#0: assert poolKept()
+//@ after_call (*bytes.Buffer).Write#0: assert poolKept()
 //@ loop 1:
-//@   invariant buf != nil && BufOwned[ref(buf)] && !old(BufOwned)[ref(buf)] && forall(Int(x), old(BufOwned)[x] ==> (BufOwned[x] && BufC[x] == old(BufC)[x] && BufStore[x] == old(BufStore)[x]), trig(BufOwned[x]))
+//@   invariant buf != nil && BufOwned[ref(buf)] && !old(BufOwned)[ref(buf)] && forall(Int(x), old(BufOwned)[x] ==> (BufOwned[x] && BufC[x] == old(BufC)[x] && BufStore[x] == old(BufStore)[x]), trig(BufOwned[x]), trig(old(BufOwned)[x]))
 //@   invariant (arrid(indexBlock.Entries) >= old(alloc) || cap(indexBlock.Entries) == 0)
 //@   invariant all(b, 0, len(dataBlocks), len(dataBlocks[b].Entries) > 0)
 //@   invariant len(indexBlock.Entries) == rangeindex + 1
